@@ -2,6 +2,7 @@ import Hgxv.Model.Wire
 import Hgxv.Model.C04
 import Hgxv.Model.C04Spec
 import Hgxv.Model.C04Dump
+import Hgxv.Model.C04Ext
 /-! Line protocol for C04.  State: one concrete `Store` and, next to it, the abstract `Spec` driven by the same
 operations.  Every answer is computed from BOTH; listings are rendered as `|`-separated items (fields `;`,
 numbers `,`, empty field `_`, empty listing `-`) and sorted as strings.  If the two renderings differ the
@@ -20,7 +21,11 @@ Queries:
   filter f: `a` (none), `s<k>` (size=k), `o<k>` (order=k), `b` (both given).
 Round d:  `reload` = the store goes through `expose` / `loadDump` (binary save + load, pickle of the tables); the `Spec` stays
 as it is, so anything the loader drops shows as SPEC-MISMATCH in the answers that follow.  Queries `dumpkeys` (names of the
-serialisation dict) and `overlapin <raw> <order>` (the overlap summed in the order in which the real set of layers iterates). -/
+serialisation dict) and `overlapin <raw> <order>` (the overlap summed in the order in which the real set of layers iterates).
+Extension round:  `ctor <w> <hmeta> <nodedict|N> <form> <raws> <Ls> <ws|N> <mds|N>` = the constructor (`construct` /
+`Spec.construct`; form `abs` = no edge_list, `emb` = (edge, layer) pairs, `embbad<i>` = pairs but element i is something else,
+`sep` = edge_list + edge_layer); `rej` leaves the state.  Queries `hashview` (ORDERED rendering of
+`expose_attributes_for_hashing`), `edgetable` / `adjtable` (the raw id tables; the map has no ids: store only). -/
 open Wire C04
 
 structure St where
@@ -86,6 +91,34 @@ def showOut : Out → String
 def hspecEdges (h : HSpec) : String :=
   items (h.edges.map (fun r => fNats r.1 ++ ";" ++ toString r.2.1 ++ ";" ++ fMeta r.2.2))
 
+/-- ordered rendering of the hashing view -/
+def fHash (v : HashView) : String :=
+  showBool v.weighted ++ "#" ++ items (v.hmeta.map (fun p => toString p.1 ++ ";" ++ toString p.2)) ++ "#" ++
+  showList "|" "-" id (v.edges.map (fun r => fKey r.1 ++ ";" ++ toString r.2.1 ++ ";" ++ fMeta r.2.2)) ++ "#" ++
+  showList "|" "-" id (v.nodes.map (fun p => toString p.1 ++ ";" ++ fMeta p.2))
+
+def ctorEdges? (form : String) (raws : List (List Nat)) (ls : List Nat) : Option CtorEdges :=
+  if form = "abs" then some .absent
+  else if form = "sep" then some (.separate raws ls)
+  else if form = "emb" then
+    if raws.length = ls.length then some (.embedded ((raws.zip ls).map (fun p => CtorItem.pair p.1 p.2))) else none
+  else if form.startsWith "embbad" then
+    match (form.drop 6).toString.toNat? with
+    | some i =>
+      if raws.length = ls.length then
+        some (.embedded (((raws.zip ls).zipIdx).map (fun p => if p.2 = i then CtorItem.other else CtorItem.pair p.1.1 p.1.2)))
+      else none
+    | none => none
+  else none
+
+def parseCtor : List String → Option CtorArgs
+  | [w, hm, nd, form, raws, ls, ws, mds] => do
+    let w ← bool? w; let hm ← meta? hm; let nd ← nodeDict? nd
+    let raws ← natss? raws; let ls ← nats? ls
+    let e ← ctorEdges? form raws ls
+    some { weighted := w, hm := hm, nodeMeta := nd.getD [], edges := e, weights := (← optInts? ws), edgeMeta := (← optMetas? mds) }
+  | _ => none
+
 /-- answers of the concrete store and of the spec to one query -/
 def answer (st : St) : List String → Option (String × String)
   | ["nodes"] => some (items ((nodes st.s).map toString), items (st.sp.nodeList.map toString))
@@ -144,6 +177,18 @@ def answer (st : St) : List String → Option (String × String)
     let r ← nats? raw; let o ← nats? order
     some (toString (overlapIn st.s o r), toString (st.sp.overlap r))
   | ["dumpkeys"] => some (items (dumpKeys st.s), items (dumpKeys st.s))
+  | ["hashview"] => some (optS fHash (hashView st.s), fHash st.sp.hashView)
+  | ["edgetable"] =>
+    -- ids are rendered by their rank among the live ids (the harness registers a layer in the model by a throw-away record)
+    let live := (edgeTable st.s).map (·.2)
+    let rk := fun (i : Nat) => (live.filter (· < i)).length
+    let a := items ((edgeTable st.s).map (fun p => fKey p.1 ++ ";" ++ toString (rk p.2)))
+    some (a, a)
+  | ["adjtable"] =>
+    let live := (edgeTable st.s).map (·.2)
+    let rk := fun (i : Nat) => (live.filter (· < i)).length
+    let a := items ((adjTable st.s).map (fun p => toString p.1 ++ ";" ++ fNats (p.2.map rk)))
+    some (a, a)
   | _ => none
 
 def both (a b : String) : String := if a = b then a else "SPEC-MISMATCH store=" ++ a ++ " spec=" ++ b
@@ -154,6 +199,15 @@ def step (st : St) (toks : List String) : St × String :=
     match bool? w, meta? hm with
     | some w, some hm => ({ s := C04.init w hm, sp := Spec.init w hm }, "ok")
     | _, _ => (st, "bad-op")
+  | "ctor" :: args =>
+    match parseCtor args with
+    | none => (st, "bad-op")
+    | some a =>
+      match construct a, Spec.construct a with
+      | some s', some sp' => ({ s := s', sp := sp' }, "ok")
+      | none, none => (st, "rej")
+      | some _, none => (st, "SPEC-MISMATCH store=ok spec=rej")
+      | none, some _ => (st, "SPEC-MISMATCH store=rej spec=ok")
   | ["reload"] =>
     match loadDump (expose st.s) with
     | some s' => ({ st with s := s' }, "ok")
